@@ -54,6 +54,7 @@ class TokPure(Pure):
         self.first_cont = None
         self.loop_entries = {}
         self.fresh_at_read = 0
+        self.first_read_env = {}
         self.gen_ret = None      # the generator's own result function (a read may sit inside an inlined helper)
 
     def callee_env(self, fn, call, env, binds):
@@ -109,7 +110,7 @@ class TokPure(Pure):
                     return TRUE if r else FALSE
                 t = "(astate_eqb %s %s)" % (a.text, b.text)
                 return V(t if isinstance(e.ops[0], ast.Eq) else "(negb %s)" % t, "bool")
-        if isinstance(e, ast.Compare) and len(e.ops) == 1 and isinstance(e.ops[0], ast.In) and isinstance(e.comparators[0], (ast.Tuple, ast.List)):
+        if isinstance(e, ast.Compare) and len(e.ops) == 1 and isinstance(e.ops[0], (ast.In, ast.NotIn)) and isinstance(e.comparators[0], (ast.Tuple, ast.List)):
             a = self.expr(e.left, env, binds)
             if a.ty == "astate":
                 parts = []
@@ -118,7 +119,8 @@ class TokPure(Pure):
                     if b.ty != "astate":
                         bad(e, "automaton state compared with %s" % b.ty)
                     parts.append("(astate_eqb %s %s)" % (a.text, b.text))
-                return V("(" + " || ".join(parts) + ")" if parts else "false", "bool")
+                t = "(" + " || ".join(parts) + ")" if parts else "false"
+                return V(t if isinstance(e.ops[0], ast.In) else "(negb %s)" % t, "bool")
         if isinstance(e, ast.Call) and isinstance(e.func, ast.Attribute) and isinstance(e.func.value, ast.Name) and e.func.value.id == "self" \
                 and e.func.attr == "_is_valid":
             if len(e.args) != 1 or not isinstance(e.args[0], ast.Name) or env.get(e.args[0].id, NONE).ty != "elem":
@@ -145,6 +147,7 @@ class TokPure(Pure):
             if not self.reads:
                 self.reads += 1
                 self.fresh_at_read = self.fresh
+                self.first_read_env = dict(env)
                 env = dict(env); env[tgt] = self.case_frame
                 try:
                     t = self.block(stmts[1:], env, k)
@@ -161,6 +164,12 @@ class TokPure(Pure):
                     self.fresh = self.fresh_at_read
                     self.loop_entries = {}
                     fenv = {kk: vv for kk, vv in env.items() if kk in ("#after_loop", "#loop_again") or (not kk.startswith("#") and getattr(vv, "ty", None) == "source")}
+                    # locals of the generator that hold the same known constant at this read as at the first one (loop flags)
+                    for kk, vv in env.items():
+                        if not kk.startswith(("#", "self.")) and getattr(vv, "has_const", False) and kk in self.first_read_env \
+                                and getattr(self.first_read_env[kk], "has_const", False) and self.first_read_env[kk].const == vv.const \
+                                and self.first_read_env[kk].text == vv.text:
+                            fenv[kk] = vv
                     fenv["#emitted"] = []
                     for attr, getter, ty in STATE:
                         fenv["self." + attr] = V(getter, ty)
@@ -351,8 +360,13 @@ def emit(core_py):
         cases.append(tr.block(body[1:], env, lambda e2: sp.ret(tr, V("false", "flag"), e2, it)))
         if tr.first_cont is None:
             raise TranslationError("_iter_tokens never reads its source")
-        if cases[-1] != tr.first_cont:
-            raise TranslationError("_iter_tokens does something between _reinitialize() and the first read of the source")
+        import re as _re
+        whole = cases[-1]
+        idx = whole.find(tr.first_cont)
+        pre, post = (whole[:idx], whole[idx + len(tr.first_cont):]) if idx >= 0 else ("x", "x")
+        lets = _re.findall(r"\(let [A-Za-z_0-9]+ := (?:true|false|[0-9]+|\(-[0-9]+\)) in ", pre)
+        if "".join(lets) != pre or post != ")" * len(lets):
+            raise TranslationError("_iter_tokens does something else than binding constants between _reinitialize() and the first read of the source")
         for lineno, alt in tr.alt_conts:
             if alt != tr.first_cont:
                 import os as _os
